@@ -14,6 +14,18 @@ for tc in ET.parse(xmlp).getroot().iter("testcase"):
 os.unlink(xmlp)
 want = set(json.load(open("/root/.vp/BASELINE.json"))["stable_pass"])
 missing = sorted(want - passed)
+if missing and len(missing) <= 10:
+    # tests that share an on-disk cache (MITRE data) fail when another test run is going on next to this one:
+    # run what is missing once more, alone
+    ids = [m.replace("tests.", "tests/", 1).replace("::", ".py::", 1) for m in missing]
+    fd, xml2 = tempfile.mkstemp(suffix=".xml"); os.close(fd)
+    subprocess.run(["/venv/bin/python", "-m", "pytest", "-q", "-p", "no:cacheprovider", f"--junitxml={xml2}"] + ids, cwd=repo, env=env,
+                   stdout=subprocess.DEVNULL, stderr=subprocess.DEVNULL)
+    for tc in ET.parse(xml2).getroot().iter("testcase"):
+        if not any(ch.tag in ("failure", "error", "skipped") for ch in tc):
+            passed.add(f"{tc.get('classname')}::{tc.get('name')}")
+    os.unlink(xml2)
+    missing = sorted(want - passed)
 print(f"baseline: {len(want)} expected, {len(want & passed)} passed, {len(missing)} missing")
 for m in missing[:40]: print("  MISSING", m)
 sys.exit(1 if missing else 0)
